@@ -110,7 +110,9 @@ func Supervise(spec Spec, tier string) int {
 			jr := filepath.Join(scratch, fmt.Sprintf("journal-%d", i))
 			logp := filepath.Join(scratch, fmt.Sprintf("log-%d", i))
 			cmd := exec.Command(self, "--worker", spec.ID, tier, strconv.Itoa(i), strconv.Itoa(n), out, jr)
-			cmd.Env = append(os.Environ(), "MCVERIF_SCRATCH="+scratch, "GOMAXPROCS=2")
+			cmd.Env = append(os.Environ(), "MCVERIF_SCRATCH="+scratch, "GOMAXPROCS=2",
+				"GORACE=halt_on_error=0 log_path="+filepath.Join(scratch, fmt.Sprintf("tsan-%d", i)))
+			cmd.Env = append(cmd.Env, "MCVERIF_TSAN_LOG="+filepath.Join(scratch, fmt.Sprintf("tsan-%d", i)))
 			cmd.Env = append(cmd.Env, spec.WorkerEnv...)
 			lf, _ := os.Create(logp)
 			cmd.Stdout, cmd.Stderr = lf, lf
